@@ -167,7 +167,11 @@ class CHECK(Check):
                   "overall cell is non-scalar; to_overall ratio iff any cell is); difference=0 iff all non-NaN groups equal "
                   "(resp. equal the overall); ratio(between)=1 iff all equal and non-zero; single non-empty group; "
                   "ratio(to_overall)>=ratio(between) for non-negative weighted-mean metrics (false without 'overall between the "
-                  "extremes': proved witness).")
+                  "extremes': proved witness). Review R1: results on extended values (ratio(to_overall) is NaN, -inf or <= 1 for every "
+                  "table; ratio(between_groups) on finite tables is NaN / -inf / min/max, never +inf; difference is NaN or >= 0); the "
+                  "side conditions FiniteCells / hasNonscalar=false are PROVED for the frame of any metric that is finite-or-NaN on "
+                  "every slice (ofFrame_finite); weighted-mean clause for NON-NEGATIVE weights without side conditions "
+                  "(overall_le_between_of_weighted_mean_data; zero-weight groups are NaN cells and skipped, replayed on fairlearn).")
     design_ref = "DESIGN.md section 4, C02"
     quick_cases = 1100
     thorough_cases = 20000
@@ -175,7 +179,7 @@ class CHECK(Check):
     thorough_budget_s = 900
     workers_thorough = 4
     rule = ("two streams: (a) datasets as in C01 (1..40 rows, 1..3 sensitive x 0..2 control features, metric pool incl. the "
-            "signed mean error which is negative/zero, bare or dict, weights) ; (b) arbitrary by_group/overall TABLES pushed "
+            "signed mean error which is negative/zero, bare or dict, strictly POSITIVE integer/dyadic sample weights or none) ; (b) arbitrary by_group/overall TABLES pushed "
             "through the public MetricFrame API with a look-up metric: values from {0,1/2,1,-1,nan,2,-3,3/4,-1/2,1/4,5}, "
             "1..4 groups x 1..3 strata, 1..2 sensitive features (so empty intersections), all-equal groups, zero/negative/NaN "
             "overall. For every metric column all 12 aggregates (min,max x raise/coerce; difference,ratio x between_groups/"
@@ -186,7 +190,8 @@ class CHECK(Check):
             "column, including which calls raise. "
             "thorough: ALL tables over {0,1/2,1,-1,nan} with <= 4 groups x <= 2 strata and overall in {0,1/2,1,-1}")
     explanation = ("oracle = the documented formulas evaluated exactly (Fractions, IEEE rules for x/0) on the implementation's own "
-                   "by_group/overall; tolerance 1e-12 relative; -0.0 is identified with 0.0. Known findings on the unchanged "
+                   "by_group/overall; tolerance 1e-12 * max(1,|exact|) (measured max deviation of the implementation from the exact value on the clean tree: "
+                   "1.2e-16 relative over 23590 comparisons, seeds 0-2); -0.0 is identified with 0.0. Known findings on the unchanged "
                    "tree: F8 (between_groups ratio > 1 when every group value of a stratum is negative) and F8b (to_overall "
                    "ratio keeps a negative quotient r in (-1,0) instead of min(r,1/r)=1/r).")
     trusted = ("pandas skipna min/max, groupby(level=), index alignment of (by_group - overall) and unstack are modelled by "
@@ -466,6 +471,7 @@ class CHECK(Check):
             spec = None
             if case["kind"] == "data":
                 spec = case["specs"][j]
+            bad = set()    # aggregate keys of THIS metric whose implementation value already failed the oracle
             doc = {}
             for c in strata:
                 vs = [("nan" if v == "ns" else v) for k, v in by if k[:ncf] == c]
@@ -497,10 +503,12 @@ class CHECK(Check):
                     base = key.rsplit("/", 1)[0]
                     if got and got[0] == "exc":
                         probs.append(Problem("property", f"{nm}.{key} raised {got[1]} on an all-scalar frame", "C02.raise_eq_coerce"))
+                        bad.add(key)
                         continue
                     gd = {tuple(k): v for k, v in got}
                     if sorted(gd.keys()) != strata:
                         probs.append(Problem("property", f"{nm}.{key}: strata {sorted(gd.keys())} expected {strata}", "C02.strata"))
+                        bad.add(key)
                         continue
                     for c in strata:
                         want = doc[c][base]
@@ -511,6 +519,7 @@ class CHECK(Check):
                                         "C02." + base.replace("/", "_") + "_eq")
                             p.info = {"base": base, "got": g, "kept": doc[c]["_r_ov_kept"], "rs": doc[c]["_rs"]}
                             probs.append(p)
+                            bad.add(key)
                 # raise == coerce
                 for base in sorted(set(k.rsplit("/", 1)[0] for k in AGG_KEYS)):
                     a, b = m["agg"][base + "/raise"], m["agg"][base + "/coerce"]
@@ -532,7 +541,7 @@ class CHECK(Check):
                     o_c = ov.get(c, "nan")
                     for meth in ("between_groups", "to_overall"):
                         d = val(f"difference/{meth}/coerce", c)
-                        if d is not None and not isinstance(d, str) and d < 0:
+                        if d is not None and (d == "-inf" or (not isinstance(d, str) and d < 0)):
                             probs.append(Problem("property", f"{nm}.difference({meth})[{list(c)}] = {d} < 0", "C02.difference_nonneg"))
                         r = val(f"ratio/{meth}/coerce", c)
                         if r is not None and r != "nan":
@@ -587,11 +596,14 @@ class CHECK(Check):
                             want = doc[c]["_r_ov_kept"] if base == "ratio/to_overall" else doc[c][base]
                             if md.get(c) != want and c in gd0 and mc.same(gd0[c], want, TOL):
                                 probs.append(Problem("harness", f"{nm}.{key}[{list(c)}]: model {md.get(c)} vs oracle {want}"))
+                    # the comparison is skipped only for a key whose implementation value failed the ORACLE itself (then the
+                    # property problem is the report); a failure of another key / metric / a known finding does not switch it off
+                    skip = (key in bad) or (frame_ns and any(p.kind == "property" for p in probs))
                     if got and got[0] == "exc":
-                        if not any(p.kind == "property" for p in probs):
+                        if not skip:
                             probs.append(Problem("correspondence", f"{nm}.{key}: impl raised {got[1]}, model returned {r}", "C02.model_errors"))
                         continue
-                    if not any(p.kind == "property" for p in probs):
+                    if not skip:
                         gd = {tuple(k): v for k, v in got}
                         if list(gd.keys()) != list(md.keys()) or any(not mc.same(gd[c], md[c], TOL) for c in gd):
                             probs.append(Problem("correspondence", f"{nm}.{key}: impl {got} vs model {r}", "C02.model"))
